@@ -38,7 +38,7 @@ def task_program(rng, i):
     nodes = []
     nb = rng.randint(1, 4)
     for b in range(nb):
-        kind = rng.pick(["layered", "layered", "map", "roundtrip", "badfile", "merge", "errstr", "crowded"])
+        kind = rng.pick(["layered", "layered", "map", "roundtrip", "badfile", "merge", "errstr", "crowded", "longline"])
         if kind == "layered":
             w = gen.gen_layered_world(rng, rng.randrange(64), two_layer=rng.chance(0.5), small=True, allow_refuse=False)
             w["read"].pop("rel", None)
@@ -84,6 +84,11 @@ def task_program(rng, i):
             # a third of the written files go, under names of their own, into a directory that all tasks use
             shared = rng.chance(0.33)
             blocks.append({"kind": "roundtrip", "path": p, "D": D, "out": "$ROOT/shared-out" if shared else "$ROOT/t%d/out" % i, "name": "w%d_%d.conf" % (i, b)})
+        elif kind == "longline":
+            # a private file with a line beyond the 8 KiB line buffer (whatever the library keeps to grow into is its own)
+            p = "$ROOT/t%d/long%d.conf" % (i, b)
+            nodes.append({"p": p, "t": "f", "c": "a=1\n[s%d]\nlong=%s\nb=t%d\n" % (i, "L%d" % i * rng.pick([3000, 4100, 9000]), i)})
+            blocks.append({"kind": "badfile", "path": p})
         elif kind == "badfile":
             p = "$ROOT/t%d/bad%d.conf" % (i, b)
             n = rng.randint(0, 10)
